@@ -275,6 +275,12 @@ func (tp *ethTxPool) CheckAndAdd(tx *etypes.Transaction, rawTx types.Tx) error {
 		return fmt.Errorf("nonce(%d) different with getNonce(%d)", tx.Nonce(), currentNonce)
 	}
 
+	// A nonce that is already pending is taken, exactly like one that is already waiting: accepting
+	// the transaction would only drop it again at the next promotion.
+	if q := tp.pending[from]; q != nil && q.Get(tx.Nonce()) != nil {
+		return errors.New("tx nonce already exist in cache")
+	}
+
 	if err := tp.addWaiting(tx, from); err != nil {
 		return err
 	}
